@@ -89,10 +89,15 @@ func (cache *MemoryCache[K, V]) Set(key K, value V, ttlSec float64) error {
 		"Setting cache key %v to value %+v with ttl %v", key, value, ttlSec)
 	ensureCacheInitialized(cache)
 
+	// the size settings can be set again while the cache is in use
+	// (WithMaxCacheSize): they are read under the lock
 	itemSize := float64(0)
-	checkSize := cache.calculateCacheSize && cache.calculateSizeFunc != nil
+	cache.mutex.RLock()
+	calculateSizeFunc := cache.calculateSizeFunc
+	checkSize := cache.calculateCacheSize && calculateSizeFunc != nil
+	cache.mutex.RUnlock()
 	if checkSize {
-		itemSize = cache.calculateSizeFunc(key, value)
+		itemSize = calculateSizeFunc(key, value)
 	}
 
 	ttlDuration := time.Duration(float64(time.Second) * ttlSec)
@@ -133,6 +138,8 @@ func (cache *MemoryCache[K, V]) Del(key K) {
 func (cache *MemoryCache[K, V]) WithMaxCacheSize(
 	calculateSizeFunc func(K, V) float64, maxCacheSize float64,
 ) {
+	cache.mutex.Lock()
+	defer cache.mutex.Unlock()
 	cache.calculateCacheSize = true
 	cache.calculateSizeFunc = calculateSizeFunc
 	cache.maxCacheSize = maxCacheSize
